@@ -880,4 +880,5 @@ func genKv(g *Gen) {
 	for i := g.Scale(250, 8000); i > 0; i-- {
 		s.handleHistory()
 	}
+	s.exhaustiveHandles(g.Scale(2, 4))
 }
